@@ -24,7 +24,7 @@ def distinct_until_changed(key_mapper=None):
     """
     def _distinct(acc, i):
         key = i
-        if key_mapper:
+        if key_mapper is not None:
             key = key_mapper(i)
 
         # acc is None until a first item has been received
